@@ -157,12 +157,21 @@ func (x *Exec) stdlibCall(st *State, fr *Frame, v *ssa.Call, f *ssa.Function, ar
 		st.assumeDef(Forall([]*T{bv}, Ite(inRange,
 			And(Eq(Select(na, bv), Select(old, perm)), Ge(perm, sl.Off), Lt(perm, Add(sl.Off, sl.Len))),
 			Eq(Select(na, bv), Select(old, bv)))))
+		// ... and every old element is still there (the permutation has an inverse)
+		inv := UF("inv!"+na.Name, SInt, bv)
+		st.assumeDef(Forall([]*T{bv}, Implies(inRange,
+			And(Eq(Select(na, inv), Select(old, bv)), Ge(inv, sl.Off), Lt(inv, Add(sl.Off, sl.Len))))))
 		st.setHeap(key, Store(arr, sl.Base, na))
 		return
 	case "strings.Repeat":
-		use("requires count >= 0")
+		use("requires count >= 0 and len(s)*count <= allocbound")
 		n := x.scalar(args[1])
 		pre("strings.Repeat.count-nonneg", Ge(n, IntC(0)), n)
+		// the result must be allocatable: Repeat panics when len(s)*count overflows and the
+		// runtime panics (or dies) on an allocation beyond what the machine has. Declared
+		// assumption: allocations of at most allocBound bytes succeed (//@ allocbound N).
+		sl0 := Slen(x.scalar(args[0]))
+		pre("strings.Repeat.result-size", Or(Eq(sl0, IntC(0)), Le(n, TDiv(IntC(x.allocBound()), sl0))), n, sl0)
 		r := UF("strings.Repeat", SStr, x.scalar(args[0]), n)
 		st.assumeDef(Eq(Slen(r), Mul(Slen(x.scalar(args[0])), n)))
 		setRes(r)
